@@ -441,6 +441,14 @@ class TupleSet(TupleV):
 def make_dict_literal(eng, keys, vals):
     if all(isinstance(k, StrV) and z3.is_string_value(_simp(k.t)) for k in keys):
         return LitDict({_simp(k.t).as_string(): v for k, v in zip(keys, vals)})
+    if len(keys) == 1 and isinstance(keys[0], StrV) and not isinstance(vals[0], (UnionV, NoneV)):
+        # {key: value} with a symbolic string key: a one-entry dict
+        try:
+            vk = vals[0].kind
+            vt = box(vals[0], vk)
+        except Exception as ex:  # noqa: BLE001
+            raise Unsupported(f"dict literal with non-literal key: value {ex}")
+        return DictV(K_STR, vk, z3.Unit(keys[0].t), z3.Store(z3.K(z3.StringSort(), z3.StringVal("") if vk == K_STR else z3.Const("dflt_lit_" + str(vk.sort()).replace(" ", "_"), vk.sort())), keys[0].t, vt))
     raise Unsupported("dict literal with non-literal keys")
 
 
@@ -1344,6 +1352,17 @@ def _comp_symbolic(eng, st, e, gen, it, kind):
             raise Unsupported("comprehension body always raises")
         ek = res[0][1].kind
         r = z3.FreshConst(z3.SeqSort(ek.sort()), "fcomp")
+        if (getattr(eng, "exact_filters", False) and isinstance(it, ListV) and isinstance(gen.target, ast.Name)
+                and isinstance(e.elt, ast.Name) and e.elt.id == gen.target.id and len(gen.ifs) == 1):
+            # (x for x in xs if cond(x)), opt-in (`exact_filters()`): the members of the result are exactly the members
+            # of xs that satisfy cond (order and multiplicity are not described)
+            x = z3.FreshConst(it.elem.sort(), "fx")
+            sx = st.bind(gen.target.id, unbox(x, it.elem))
+            cres = [(s2, c) for s2, c in eng.eval(gen.ifs[0], sx)]
+            if len(cres) == 1 and not isinstance(cres[0][1], RaiseV) and len(cres[0][0].pc) == len(st.pc):
+                cond = eng.truthy(cres[0][1])
+                ax = z3.ForAll([x], z3.Contains(r, z3.Unit(x)) == And(z3.Contains(it.t, z3.Unit(x)), cond))
+                return [(st.assume(z3.Length(r) <= n_src).assume(ax), ListV(ek, r))]
         eng.trusted_used.add("filtered comprehension over a symbolic list: over-approximated (unconstrained result)")
         return [(st.assume(z3.Length(r) <= n_src), ListV(ek, r))]
     if isinstance(it, RangeV):
@@ -1396,6 +1415,24 @@ class ChainV(V):
 
     def __init__(self, parts):
         self.parts = parts
+
+    @property
+    def kind(self):
+        return None
+
+    def to_seq(self, kind):
+        """As a list of kind.elem: the concatenation of the parts (lists, tuples of constants, nested chains)."""
+        seqs = []
+        for p in self.parts:
+            if isinstance(p, UnionV):
+                raise Unsupported("box: chain over a union-valued part")
+            if isinstance(p, DictV) and p.kk == kind.elem:
+                seqs.append(p.keys)     # a dict is iterated by its keys
+            else:
+                seqs.append(box(p, kind))
+        if not seqs:
+            return z3.Empty(kind.sort())
+        return seqs[0] if len(seqs) == 1 else z3.Concat(*seqs)
 
 
 # ------------------------------------------------------------------------------ builtins
@@ -1672,6 +1709,25 @@ def _b_hasattr(eng, st, pos, kw):
     return outs
 
 
+def _b_getattr(eng, st, pos, kw):
+    """getattr(obj, "name"[, default]) with a literal name: attribute access, the default on AttributeError."""
+    if len(pos) not in (2, 3) or kw:
+        raise Unsupported("getattr arity")
+    v, name = pos[0], pos[1]
+    n = _simp(name.t) if isinstance(name, StrV) else None
+    if n is None or not z3.is_string_value(n):
+        raise Unsupported("getattr with symbolic name")
+    attr = n.as_string()
+    outs = []
+    for s, v1 in eng.split(st, v):
+        for s2, r in get_attribute(eng, s, v1, attr, None):
+            if isinstance(r, RaiseV) and r.cls == "AttributeError" and len(pos) == 3:
+                outs.append((s2, pos[2]))
+            else:
+                outs.append((s2, r))
+    return outs
+
+
 def _b_next(eng, st, pos, kw):
     items = concrete_items(eng, pos[0])
     if items is None and isinstance(pos[0], ListV):
@@ -1728,6 +1784,7 @@ BUILTINS = {
     "tuple": FuncV(_b_tuple, "tuple"),
     "set": FuncV(_b_set, "set"),
     "hasattr": FuncV(_b_hasattr, "hasattr"),
+    "getattr": FuncV(_b_getattr, "getattr"),
     "next": FuncV(_b_next, "next"),
     "sorted": FuncV(_b_sorted, "sorted"),
     "callable": FuncV(_b_callable, "callable"),
@@ -1746,7 +1803,14 @@ def model_for_object(obj):
     import itertools as _it
 
     if obj is _it.chain:
-        return lambda eng, st, pos, kw: [(st, ChainV(list(pos)))]
+        def _chain(eng, st, pos, kw):
+            if any(isinstance(p, UnionV) for p in pos):
+                # a part that is a union on this path (an Optional already tested against None): one chain per
+                # feasible combination of alternatives
+                return [(s2, ChainV(list(alts))) for s2, alts in eng.split_all(st, list(pos))]
+            return [(st, ChainV(list(pos)))]
+
+        return _chain
     if getattr(obj, "__name__", "") == "node" and getattr(obj, "__module__", "") == "pyxform.utils":
         from . import dom_model
 
